@@ -265,12 +265,13 @@ pub struct WStats {
     pub panics: u64,
     pub walks: u64,
     pub readbacks: u64,
+    pub large_fills: u64,
     pub classes: [u64; 4],
 }
 
 impl Default for WStats {
     fn default() -> Self {
-        WStats { ops: [0; 14], putters: [0; 38], leaf_kinds: [0; 7], panics: 0, walks: 0, readbacks: 0, classes: [0; 4] }
+        WStats { ops: [0; 14], putters: [0; 38], leaf_kinds: [0; 7], panics: 0, walks: 0, readbacks: 0, large_fills: 0, classes: [0; 4] }
     }
 }
 
@@ -520,8 +521,16 @@ impl<'a> WInterp<'a> {
                 self.write_op(format!("put_slice({} bytes)", n), &data, move |r| r.put_slice(&d2));
             }
             2 => {
-                let n = pick_n(a);
-                let val = (b as u8) | 1;
+                let mut n = pick_n(a);
+                let mut val = (b as u8) | 1;
+                // occasionally a large fill (zero or not) into a target with room: size- or value-dependent fast paths
+                if a % 61 == 7 && room >= 300_000 && !crate::bufeng::digest_mode() {
+                    n = 131072 + (a as usize / 61) % 3;
+                    if b % 2 == 0 {
+                        val = 0;
+                    }
+                    self.st.large_fills += 1;
+                }
                 let data = vec![val; n];
                 self.write_op(format!("put_bytes({:#x}, {})", val, n), &data, move |r| r.put_bytes(val, n));
             }
@@ -954,7 +963,7 @@ pub fn main_bufmut(args: &Args) -> i32 {
     let out = json!({
         "engine": "bufmut", "property": prop, "profile": util::profile_name(), "seed": seed, "worker": worker,
         "evaluations": col.evals, "nontrivial_distinct_this_worker": col.nontriv.len(), "exhaustive": exhaustive,
-        "histogram": {"write_ops": ops, "target_leaf_kinds": kinds, "typed_writes": puts, "expected_panics(write does not fit)": st.panics, "structural_walks": st.walks, "read_backs": st.readbacks,
+        "histogram": {"write_ops": ops, "target_leaf_kinds": kinds, "typed_writes": puts, "expected_panics(write does not fit)": st.panics, "structural_walks": st.walks, "read_backs": st.readbacks, "large_fills(>=128KiB)": st.large_fills,
             "required_classes": {"write straddled a chunk end": st.classes[0], "growable target grew": st.classes[1], "write did not fit": st.classes[2], "write ended exactly at a chunk end / limit / capacity": st.classes[3]},
             "cases_ended_by_another_property's_violation": col.foreign},
         "samples": col.samples, "violations": col.viols,
